@@ -22,7 +22,7 @@ MANIFEST_ENTRY = {
 }
 
 
-def tasks(tier, seed):
+def _tasks_core(tier, seed):
     ts = [dict(kind="custom", module="props.c04_tasks", fn="confinement_task", cls=c) for c in ALGOS]
     ts.append(dict(kind="custom", module="props.c04_tasks", fn="confinement_task", cls="UpdateRisk", method="_set_risk_recursive"))
     ts.append(dict(kind="custom", module="props.c04_tasks", fn="closure_scan"))
@@ -48,3 +48,24 @@ def post(results, tier, seed):
 
 def replay(o):
     return o.get("replay_inline")
+
+
+# functions under contract elsewhere whose obligations carry this property's tag as well (found by tools/tagaudit.py): run here too, so that a change
+# which breaks one of them is reported by this check and not only by a neighbour
+def tasks(tier, seed):
+    return _tasks_core(tier, seed) + [
+        func("bt.core.SecurityBase.update"),
+        func("bt.core.FixedIncomeSecurity.update"),
+        func("bt.core.CouponPayingSecurity.update"),
+        func("bt.algos.SelectAll.__call__"),
+        func("bt.algos.SelectHasData.__call__"),
+        func("bt.algos.SelectThese.__call__"),
+        func("bt.algos.SelectWhere.__call__"),
+        func("bt.algos.SelectRandomly.__call__", variant="no-n"),
+        func("bt.algos.SelectRandomly.__call__", variant="with-n"),
+        func("bt.algos.SetNotional.__call__"),
+        func("bt.algos.SetStat.__call__"),
+        func("bt.algos.StatTotalReturn.__call__"),
+        func("bt.algos.WeighTarget.__call__"),
+        func("bt.core.StrategyBase.cash"),
+    ]
